@@ -111,12 +111,23 @@ fn run<G: Group>(sc: &Scenario, st: &mut RunStats) -> Vec<Violation> {
         if encoding_only {
             st.probe("encoding_only_fault_not_delivered_in_batch_context");
         } else if let (Some((cst, cpr)), Ok(Delivered::Ready(bst, bpr))) = (&companion, guarded(|| bad.open())) {
-            for altered_first in [false, true] {
-                let (sts, prs, ctxs): (Vec<_>, Vec<_>, Vec<&Context>) = if altered_first {
-                    (vec![bst.clone(), cst.clone()], vec![bpr.clone(), cpr.clone()], vec![&bad.ctx, &cctx])
+            // arrangements: [companion, altered], [altered, companion] and, for odd batch sizes,
+            // [companion, companion, altered], [altered, companion, companion]
+            for arrangement in 0..4usize {
+                let altered_first = arrangement % 2 == 1;
+                let n_comp = if arrangement < 2 { 1 } else { 2 };
+                let mut sts = vec![cst.clone(); n_comp];
+                let mut prs = vec![cpr.clone(); n_comp];
+                let mut ctxs: Vec<&Context> = vec![&cctx; n_comp];
+                if altered_first {
+                    sts.insert(0, bst.clone());
+                    prs.insert(0, bpr.clone());
+                    ctxs.insert(0, &bad.ctx);
                 } else {
-                    (vec![cst.clone(), bst.clone()], vec![cpr.clone(), bpr.clone()], vec![&cctx, &bad.ctx])
-                };
+                    sts.push(bst.clone());
+                    prs.push(bpr.clone());
+                    ctxs.push(&bad.ctx);
+                }
                 st.evals += 1;
                 let r = verify::<G>(&ctxs, &sts, &prs, VerifyAction::VerifyOnly);
                 st.probe("delivered_in_batch_context");
